@@ -64,7 +64,8 @@ Qed.
 
 Lemma st_create_table_free_mono s n fds : nextFree s <= nextFree (fst (st_create_table s n fds)).
 Proof.
-  unfold st_create_table. destruct (names_distinct _); [|cbn [fst]; lia]. unfold st_create_table0.
+  unfold st_create_table. destruct (names_distinct _); [|cbn [fst]; lia].
+  destruct (create_bad_rows s n fds); [cbn [fst]; lia|]. unfold st_create_table0.
   destruct (rel_offset s n) as [o|e|]; cbn [fst]; try lia.
   destruct e; cbn [fst]; try lia.
   unfold create_page. cbv zeta.
@@ -84,10 +85,12 @@ Proof.
   destruct st; cbn [run_stmt e_store]; try lia.
   - pose proof (st_create_table_free_mono s name (map fielddef_of cols)) as H.
     destruct (st_create_table s name (map fielddef_of cols)) as [s1 [u|e|]]; cbn [fst e_store] in *; exact H.
-  - pose proof (insert_rows_free_mono rows s table cols [] 0%nat) as H.
+  - destruct (first_err _ rows) as [u|e|]; cbn [e_store]; try lia.
+    pose proof (insert_rows_free_mono rows s table cols [] 0%nat) as H.
     destruct (insert_rows s table cols rows [] 0) as [[s1 b] o]. exact H.
   - destruct (existsb _ sets); cbn [e_store]; [lia|].
     destruct (where_ids s table where_) as [ids|e|]; cbn [e_store]; try lia.
+    destruct (first_err _ ids) as [u|e|]; cbn [e_store]; try lia.
     match goal with |- context [update_rows s table ?c ?v ids []] => pose proof (update_rows_free ids s table c v []) as H;
       destruct (update_rows s table c v ids []) as [[s1 b] o] end. cbn [fst e_store] in *. lia.
   - destruct (where_ids s table where_) as [ids|e|]; cbn [e_store]; try lia.
@@ -139,7 +142,7 @@ Proof.
   - (* CREATE TABLE *)
     clear Hst. cbn [run_stmt] in *.
     destruct (is_sys n) eqn:Hsys.
-    { exfalso. destruct (rel_offset_sys s d n HR Hsys) as [o Eo]. unfold st_create_table, st_create_table0 in Hout.
+    { exfalso. destruct (rel_offset_sys s d n HR Hsys) as [o Eo]. unfold st_create_table, create_bad_rows, st_create_table0 in Hout.
       rewrite Eo in Hout. destruct (names_distinct _); cbn in Hout; discriminate. }
     destruct (st_create_table s n (map fielddef_of cds)) as [s1 [[]|e|]] eqn:Ec; cbn [e_store e_out] in *; try discriminate.
     assert (Hmax1 : nextFree s1 <= OFFMAX) by exact Hmax.
@@ -150,7 +153,8 @@ Proof.
     cbn [stmt_ok] in Hst. rename Hst into Hv.
     assert (Hvals : Forall (Forall val_okP) rows).
     { apply forallb_Forall in Hv. eapply Forall_impl; [|exact Hv]. intros r. apply forallb_Forall. }
-    cbn [run_stmt] in *. destruct (insert_rows s n cols rows [] 0) as [[s1 b] o] eqn:Er. cbn [e_store e_out] in *. subst o.
+    cbn [run_stmt] in *. destruct (first_err _ rows) as [u|e0|]; try discriminate.
+    destruct (insert_rows s n cols rows [] 0) as [[s1 b] o] eqn:Er. cbn [e_store e_out] in *. subst o.
     unfold spec_step. cbn [spec_exec].
     destruct (is_sys n) eqn:Hsys.
     { rewrite (find_tbl_sys d n (r_dbok _ _ HR) Hsys).
@@ -172,6 +176,7 @@ Proof.
     unfold spec_step. cbn [spec_exec]. fold (set_vals sets).
     destruct (existsb _ sets) eqn:Ex; [cbn in Hout; discriminate|].
     destruct (where_ids s n w) as [ids|e|] eqn:Ew; cbn [e_out e_store] in *; try discriminate.
+    destruct (first_err _ ids) as [u|e0|]; cbn [e_out e_store] in *; try discriminate.
     destruct (is_sys n) eqn:Hsys.
     { rewrite (find_tbl_sys d n (r_dbok _ _ HR) Hsys).
       destruct ids as [|k rest]; [cbn in *; exact HR|].
